@@ -113,6 +113,11 @@ class Adapter:
 
     def update(self, rows):
         t, d = self.arrays(rows)
+        self.nupdates = getattr(self, 'nupdates', 0) + 1
+        if self.kind in ('cpa', 'dpa') and self.nupdates % 2 == 0:
+            # the same values in Fortran order (what a transposed view gives): an update is a function of the values.  Only for the
+            # numpy-only distinguishers - each new layout costs the compiled kernels of the others a fresh specialisation
+            t, d = np.asfortranarray(t), np.asfortranarray(d)
         t0, d0 = t.copy(), d.copy()
         try:
             if self.kind == 'ttest':
